@@ -24,7 +24,7 @@ def dispatch (line : String) : String :=
     | "norm" => Norm.runLine payload
     | "nbyte" => Norm.byteLine payload
     | "codec" => Codec.runLine payload
-    | "admit" => Codec.admitLine payload
+    | "admitcfg" => Codec.admitLine payload
     | "cookie" => Codec.cookieLine payload
     | "uncookie" => Codec.uncookieLine payload
     | "cookiebyte" => Codec.cookieByteLine payload
